@@ -21,7 +21,7 @@ CONSTANTS Period,      \* housekeeping period              1000
           Batch,       \* largest batch                      32
           RejoinMs,    \* reconnect bound after a repair  30000
           MaxL,
-          Check        \* which properties' clauses are asserted: a subset of {"C01", "C08", "C09", "C14"}
+          Check        \* which properties' clauses are asserted: a subset of {"C01", "C06", "C08", "C09", "C14"}
                        \* (the observer's own state always advances; each check names its property)
 
 Rec == ndJsonDeserialize(IOEnv.TRACE)
@@ -40,10 +40,13 @@ VARIABLES i,
           kaT,       \* kaT[l]: last keepalive seen from the current socket (or its connection time)
           downLo,    \* downLo[l]: earliest possible time of the link's last socket re-creation (-1: none)
           everUp,    \* everUp[l]: the link has been connected at least once
-          repaired   \* repaired[l]: time its path was repaired while it was not connected (-1: nothing pending)
+          repaired,  \* repaired[l]: time its path was repaired while it was not connected (-1: nothing pending)
+          mode, modeT,  \* the configured scheduling mode and when it was last (re)set
+          ackT,      \* last time an ACK-class datagram (SRTLA ACK, SRT ACK) or a REG3 reached the sender
+          kw, kwT    \* kw[l]: window reported by the link's last keepalive (-1: none on this socket), and when
 
 vars == <<i, n, timeout, profile, est, known, outst, hi, recent, routed, dups, port, conn, heard, kaT, downLo,
-          everUp, repaired>>
+          everUp, repaired, mode, modeT, ackT, kw, kwT>>
 
 Links == 1..MaxL
 Handshake == {"reg1", "reg2", "reg3", "reg_err", "reg_ngp"}
@@ -56,6 +59,7 @@ Fresh(r) ==
     /\ routed' = 0 /\ dups' = 0
     /\ conn' = [l \in Links |-> -1] /\ heard' = [l \in Links |-> -1] /\ kaT' = [l \in Links |-> -1]
     /\ downLo' = [l \in Links |-> -1] /\ everUp' = [l \in Links |-> FALSE] /\ repaired' = [l \in Links |-> -1]
+    /\ mode' = r.mode /\ modeT' = 0 /\ ackT' = -1 /\ kw' = [l \in Links |-> -1] /\ kwT' = [l \in Links |-> -1]
 
 (* ---------------- the uplink direction (C01) ---------------- *)
 (* fold over the frames of one step, in the order the receiver socket delivered them *)
@@ -147,10 +151,28 @@ LinkChecks(r, l) ==
          \* a link that is not connected sends no keepalives
          /\ (conn[l] = -1 /\ Conn1(r, l) = -1 /\ port[l] # 0 /\ ~Torn(r, l)) => Kas(r, l) = <<>>
 
+(* ---- C06: classic mode never applies time-based window recovery.  The window a link reports in two consecutive
+   keepalives of the same socket does not grow while the mode has been classic since before the first of them
+   and nothing ACK-like reached the sender in between (only ACKs raise a classic window). ---- *)
+AckNow(r) == \E j \in 1..Len(r.rx) : r.rx[j].cls \in {"srtla_ack", "srt_ack", "reg3"}
+WindowChecks(r, l) ==
+    "C06" \in Check =>
+        \A j \in 1..Len(Kas(r, l)) :
+            (j = 1 /\ ~Torn(r, l) /\ kw[l] # -1 /\ Kas(r, l)[j].kw # -1
+               /\ mode = "classic" /\ modeT < kwT[l] /\ r.ev # "SetCfg"
+               /\ ackT < kwT[l] /\ ~AckNow(r))
+            => Kas(r, l)[j].kw <= kw[l]
+Kw1(r, l)  == IF Kas(r, l) # <<>> THEN Kas(r, l)[Len(Kas(r, l))].kw ELSE IF Torn(r, l) THEN -1 ELSE kw[l]
+KwT1(r, l) == IF Kas(r, l) # <<>> THEN r.t ELSE IF Torn(r, l) THEN -1 ELSE kwT[l]
+
 Upd(f(_, _), old, r) == [l \in Links |-> IF l <= n THEN f(r, l) ELSE old[l]]
 
 LinksOK(r) ==
-    /\ \A l \in 1..n : LinkChecks(r, l)
+    /\ \A l \in 1..n : LinkChecks(r, l) /\ WindowChecks(r, l)
+    /\ kw' = Upd(Kw1, kw, r) /\ kwT' = Upd(KwT1, kwT, r)
+    /\ ackT' = IF AckNow(r) THEN r.t ELSE ackT
+    /\ mode' = IF r.ev = "SetCfg" /\ "classic" \in DOMAIN r THEN (IF r.classic THEN "classic" ELSE "enhanced") ELSE mode
+    /\ modeT' = IF r.ev = "SetCfg" /\ "classic" \in DOMAIN r THEN r.t ELSE modeT
     /\ port' = Upd(NewP, port, r) /\ conn' = Upd(Conn1, conn, r) /\ heard' = Upd(Heard1, heard, r)
     /\ kaT' = Upd(KaT1, kaT, r) /\ repaired' = Upd(Rep1, repaired, r)
     /\ downLo' = [l \in Links |-> IF l <= n /\ Torn(r, l) THEN r.t - r.d ELSE downLo[l]]
@@ -163,6 +185,7 @@ TraceInit ==
     /\ routed = 0 /\ dups = 0 /\ port = [l \in Links |-> 0]
     /\ conn = [l \in Links |-> -1] /\ heard = [l \in Links |-> -1] /\ kaT = [l \in Links |-> -1]
     /\ downLo = [l \in Links |-> -1] /\ everUp = [l \in Links |-> FALSE] /\ repaired = [l \in Links |-> -1]
+    /\ mode = "enhanced" /\ modeT = 0 /\ ackT = -1 /\ kw = [l \in Links |-> -1] /\ kwT = [l \in Links |-> -1]
 
 TraceNext ==
     /\ i <= Len(Rec)
